@@ -966,6 +966,8 @@ func runC08(c *Ctx) {
 	}
 	_ = sort.Strings
 	_ = types.Typ
+	c.ruleContainersOwnTheirMemory("H6-containers-own-their-memory")
+	c.Min("H6-containers-own-their-memory", 6)
 }
 
 // ruleFullBuildAndRemoval (H6)
